@@ -112,7 +112,7 @@ Proof.
     rewrite len_nil in Hlo.
     assert (out = []) as -> by (destruct out; [reflexivity|rewrite len_cons in Hlo; pose proof (len_nonneg out); lia]).
     do 2 eexists. split; [reflexivity|]. rewrite len_nil in *.
-    split; [|split; [|split; [|split]]]; auto.
+    split; [|split; [|split; [|split]]]; auto; try (now rewrite slice_0).
     + split; [exact Hi'|]. cbn [ccache cu cenc]. rewrite Hc', Hp', Z.add_0_r.
       split; [congruence|]. auto.
 Qed.
@@ -139,7 +139,7 @@ Qed.
 
 Lemma take_xor_ks c0 s d k : 0 <= k -> take (xk c0 s d) k = xk c0 s (take d k).
 Proof.
-  intros Hk. unfold take. remember (Z.to_nat k) as n. clear Heqn Hk. revert s d.
+  intros Hk. rewrite ?take_raw; unfold take0. remember (Z.to_nat k) as n. clear Heqn Hk. revert s d.
   induction n as [|n IH]; intros s [|x d]; cbn [firstn xor_ks]; auto. now rewrite IH.
 Qed.
 
@@ -184,12 +184,12 @@ Proof.
     cbn [bind]. rewrite Hext, Hlct in Hkv. rewrite Hext.
     assert (k = 0) as -> by lia.
     do 2 eexists. split; [reflexivity|]. cbn [cu].
-    assert (Hsame : content u' = content (cu io)) by (rewrite Hc'; reflexivity).
+    assert (Hsame : content u' = content (cu io)) by (rewrite Hc', take_0; reflexivity).
     split; [|split; [|split; [|split]]]; auto.
     + split; [exact Hi'|]. cbn [ccache cu cenc]. rewrite Hk', Hsame, Hp'. split; [exact Hk|].
       split; [exact Hd'|]. right. split; [exact Hext|lia].
     + exists ct. split; [exact Hlct|]. rewrite Hc'. reflexivity.
-    + intros _. rewrite Hsame. reflexivity.
+    + intros _. rewrite Hsame, take_0. reflexivity.
 Qed.
 
 Theorem ctr_seek_ok io o w :
